@@ -117,6 +117,12 @@ def generate(problems):
             env_loops.append("for %s in %s: %s" % (ast.unparse(st.target), ast.unparse(st.iter), " | ".join(tests)))
     lev_first = ast.unparse(lev.body[0]) if lev.body else ""
     env_assign = [s for s in _flat_stmts(lev.body) if s.startswith("cfg[action.dest]") or "apply_config" in s]
+    # the subcommand variable: what the named sub-parser contributes to the environment layer
+    env_sub_branch = [s for s in _flat_stmts(lev.body) if "parse_env(" in s or "env_val in action.choices" in s or "subcommand + '.' + k" in s
+                      or s.startswith("for (k, v) in vars(pcfg)")]
+    # merge_config: which statements stand inside which `with`
+    merge_with = ["with %s: %s" % (", ".join(ast.unparse(i) for i in n.items), "; ".join(_flat_stmts(n.body)))
+                  for n in ast.walk(mc) if isinstance(n, ast.With)]
 
     # 4. default config files: order of matches and of application
     gdf = method("_get_default_config_files")
@@ -195,7 +201,7 @@ def generate(problems):
         ("updateBody", update_body), ("envVarBody", env_var_body), ("defaultEnvSetter", default_env_body),
         ("subInherit", sub_inherit), ("subCallBody", sub_call_body), ("handleSubcommandsBody", handle_body),
         ("handleSubcommandsWith", handle_withs), ("parseCommonEnv", pcommon_env), ("parseArgsWith", pargs_withs),
-        ("parseEnvBody", penv_body),
+        ("parseEnvBody", penv_body), ("envSubcommandBranch", env_sub_branch), ("mergeConfigWith", merge_with),
     ):
         body += "def %s : List String := %s\n" % (name, lean_str_list(val))
     body += "def loadEnvStart : String := %s\n" % lean_str(lev_first)
